@@ -286,6 +286,14 @@ func Delivery(sp *spec.Spec, sv *spec.Service, m *spec.Method, r *vc.Rand, n int
 		if c.Sent == nil && !c.NoPay && m.Payload != nil {
 			continue // no transport-safe valid payload for this draw
 		}
+		if i%4 == 3 && m.HTTP != nil && !c.NoPay {
+			// hand-encoded request (the lab's own wire encoder): the server must understand the design's
+			// dialect, not just its own client's
+			if rq, err := Raw(sp, sv, m, c.Sent, i%len(m.HTTP.Routes)); err == nil {
+				c.Raw = rq
+				c.Class += "-raw"
+			}
+		}
 		c.Outcome = &rt.Outcome{Kind: "result", Result: Result(sp, m, rr.Fork(99), (i+1)%3)}
 		if v := viewsOf(sp, m); len(v) > 0 {
 			c.Outcome.View = v[rr.Intn(len(v))]
